@@ -95,7 +95,9 @@ def run(rep, tier, seed):
             else: tally["reject_ok"] += 1
             continue
         if not ok:
-            if exp == "accept":
+            if exp == "accept" and kind in BITS and not all(e["def"] and representable(rk0, conc(rk0, e["v"])) for e in res.get("d", [])):
+                tally["free"] += 1; tally["result_not_representable"] += 1      # an integer result the model cannot vouch for (overflow) may be rejected
+            elif exp == "accept":
                 rep.fail(sig + "/rejected", f"{req['stmts']} rejected ({ev.get('class')}) although the scalar form of the operator is accepted for {kind}", replay)
             else: tally["free"] += 1
             continue
